@@ -1,4 +1,177 @@
-import SafeC.Models.Copy
-/-! Property theorems for C11 (see DESIGN.md §4). -/
+import SafeC.Proofs.PrintfFormat
+/-!
+# C11 — formatted output matches C `printf` for the supported conversions, or fails
+
+Model: `SafeC/Models/Printf.lean` (the engine of src/str/vsnprintf_s.c, its sinks and wrappers);
+specification: `SafeC/Models/PrintfSpec.lean` (`Spec.printf`, C11 7.21.6.1 for `d i u x X o c s %`).
+
+What is proved here, for ALL inputs of the stated class (no bound on values, widths below the buffer limit, dmax):
+
+* `ntoa_digits_C11` (full): the digit loop of `safec_ntoa_long[_long]` writes exactly the standard's digits of every
+  64-bit value in base 8, 10, 16; `digits_positional_C11`: those digits are the positional representation.
+* `ntoa_format_C11_partial`: `safec_ntoa_format` + `safec_out_rev` write padding, sign, zeros, digits, padding exactly as
+  C11 lays a number out — for every conversion without the `#` flag whose precision and zero-padded width stay within the
+  32-byte digit buffer, and (code as found) without precision zeros under the `-` flag.  Each excluded class has a
+  kernel-checked witness below and is a known finding (or a fix) of the check.
+* `sinks_C11_*` (full): the three sinks receive the same characters; the buffer sink stores them at `dest[idx..]` when
+  they fit and returns -ESNOSPC at the first one that does not (`idx`/`maxlen` discipline).
+* `vsprintf_s_C11_fits` (full): `vsprintf_s` never reports success with `ret >= dmax`; `vsnprintf_s_exact_fit_witness`:
+  `sprintf_s` / `snprintf_s` / `vsnprintf_s` do (text of exactly `dmax` characters).
+
+NOT proved (correspondence + oracle only, see NOTES_C11.md): that the directive parser of `safec_vsnprintf_s` and
+`Spec.parseDir` read every format alike and the composition over several directives (`engine = Spec.printf` end to end);
+`%c` `%s` `%lc` `%ls`; every floating conversion (no model).
+
+The FULL statement — for every format of the class and matching arguments the engine's text is `Spec.printf`'s or the
+call fails — is false of the code: see the `_witness` theorems.
+-/
 namespace SafeC.Props.C11
+open SafeC.Printf SafeC.Printf.Spec
+
+/-- FULL.  The heart: for every value below 2^64 and every base from 8 to 16 the digit loop leaves exactly the digit
+    characters of `Spec.digits base value`, least significant first (`0` for the value 0): the 32-byte buffer never cuts
+    the digits of a number. -/
+theorem ntoa_digits_C11 (b : Nat) (up : Bool) (v : Nat) (hb : 8 ≤ b) (hb16 : b ≤ 16) (hv : v < 2 ^ 64) :
+    ntoaDigits b up NTOA v [] = if v = 0 then ['0'] else ((digits b v).map (digitSym up)).reverse :=
+  ntoaDigits_spec b up v hb hb16 hv
+
+example : ntoaDigits 16 true NTOA 48879 [] = ['F', 'E', 'E', 'B'] := by decide
+
+/-- FULL.  `Spec.digits` is the positional representation of `n`: it denotes `n`, every digit is below the base, and it
+    has no leading zero. -/
+theorem digits_positional_C11 (b n : Nat) (hb : 2 ≤ b) :
+    ofDigits b (digits b n) = n ∧ (∀ d ∈ digits b n, d < b) ∧ (digits b n).head? ≠ some 0 :=
+  ⟨ofDigits_digits b hb n, digits_lt b hb n, digits_head_ne_zero b hb n⟩
+
+/-- the text C11 lays out for a number: left padding, sign, zeros, digits (most significant first), right padding -/
+def layout (E : Str) (sign : Str) (zeros width : Nat) (left zeropad : Bool) : Str :=
+  let n := E.length + zeros + sign.length
+  (if !left && !zeropad then List.replicate (width - n) ' ' else []) ++ sign ++ List.replicate zeros '0' ++ E.reverse ++
+  (if left then List.replicate (width - n) ' ' else [])
+
+/-- PARTIAL.  `safec_ntoa_format` followed by `safec_out_rev`, any sink, any state: for a conversion without `#`
+    (`hh`), digits `E` (reversed) of at most 31 characters, precision at most 31 (`hp`) and — when zero padding applies —
+    width at most 31 (`hw`), the characters handed to the sink are exactly: spaces to the width (right-justified, no `0`
+    flag), the sign (`-`, else `+`, else space), `max(prec - digits, 0)` precision zeros [only without `-`, code as found:
+    `zPrec`], the zeros of the `0` flag filling the width, the digits, spaces to the width (`-` flag).
+    Hypotheses `hp`/`hw` = finding printf-digit-buffer-32; `zPrec … = 0` under `-` = finding printf-minus-drops-precision
+    (`Fixes.minusPrec`); `hh` excludes the `#` findings (`Fixes.hash`). -/
+theorem ntoa_format_C11_partial (fx : Fixes) (sk : Sink) (m : Nat) (E : Str) (negative : Bool) (base prec width : Nat)
+    (fl : Flags) (s : St)
+    (hh : fl.hash = false) (hE : E.length ≤ 31) (hp : prec ≤ 31) (hw : fl.left = false → fl.zeropad = true → width ≤ 31)
+    (hwmax : width ≤ 2147483614) :
+    ntoaFormat fx sk m E negative base prec width fl s =
+      emitAll sk m (layout E (signChars negative fl) (zPrec fx E prec fl + zWidth fx E negative prec width fl)
+                      (width1Of negative width fl) fl.left fl.zeropad) s := by
+  unfold ntoaFormat
+  rw [ntoaPrep_nohash fx E negative base prec width fl hh hE hp hw]
+  have hw1 : width1Of negative width fl ≤ width := by unfold width1Of; split <;> omega
+  have : ¬ (width1Of negative width fl > 2147483614) := by omega
+  simp only [this, if_false, outRev_eq]
+  congr 1
+  unfold outRevText layout signChars
+  cases negative <;> cases fl.plus <;> cases fl.space <;> cases fl.left <;> cases fl.zeropad <;>
+    simp [List.reverse_append, Nat.add_assoc, Nat.add_comm, Nat.add_left_comm]
+
+/-- the hypotheses are satisfiable by a non-trivial input: `%+08d` of 42 -/
+example : (ntoaFormat Fixes.none .fchar 0 ['2', '4'] false 10 0 8 { zeropad := true, plus := true } ⟨0, [], []⟩).toOption =
+    some ⟨8, [], ['+', '0', '0', '0', '0', '0', '4', '2']⟩ := by decide
+
+/-- FULL.  `safec_out_fchar` (fprintf_s, vfprintf_s): every character reaches the stream in order. -/
+theorem sinks_C11_fchar (m : Nat) (cs : List Char) (s : St) :
+    emitAll .fchar m cs s = .ok { s with stream := s.stream ++ cs, idx := s.idx + cs.length } := emitAll_fchar m cs s
+
+/-- FULL.  `safec_out_char` (printf_s): the same characters except that a NUL is not written (finding printf_s-nul-dropped). -/
+theorem sinks_C11_char (m : Nat) (cs : List Char) (s : St) :
+    emitAll .char m cs s = .ok { s with stream := s.stream ++ cs.filter (· ≠ '\x00'), idx := s.idx + cs.length } := emitAll_char m cs s
+
+/-- FULL.  `safec_out_buffer`: if the characters fit below `maxlen` they are stored at `dest[idx ..]` (same sequence the
+    stream sinks receive), the cells in front and behind are untouched; … -/
+theorem sinks_C11_buffer (m : Nat) (cs : List Char) (s : St) (hfit : s.idx + cs.length ≤ m) (hl : s.cells.length = m) :
+    ∃ s', emitAll .buffer m cs s = .ok s' ∧ s'.idx = s.idx + cs.length ∧ s'.stream = s.stream ∧ s'.cells.length = m ∧
+      s'.cells.take s'.idx = s.cells.take s.idx ++ cs ∧ s'.cells.drop s'.idx = s.cells.drop (s.idx + cs.length) :=
+  emitAll_buffer_fits m cs s hfit hl
+
+/-- FULL.  … and if they do not, the loop returns `-ESNOSPC` (no truncated success from the engine). -/
+theorem sinks_C11_buffer_overflow (m : Nat) (cs : List Char) (s : St) (h1 : s.idx ≤ m) (h2 : m < s.idx + cs.length) :
+    emitAll .buffer m cs s = .error (.ret ESNOSPCi) := emitAll_buffer_overflow m cs s h1 h2
+
+example : (emitAll .char 0 ['a', '\x00', 'b'] ⟨0, [], []⟩).toOption = some ⟨3, [], ['a', 'b']⟩ := by decide
+
+/-- FULL.  `vsprintf_s` never reports success for a text that does not leave room for the terminator: whenever it
+    returns `r ≥ 0`, `r < dmax` (any format, arguments, repair state, slack configuration). -/
+theorem vsprintf_s_C11_fits (fx : Fixes) (slack : Bool) (dmax : Nat) (init : List Char) (fmt : Str) (args : List Arg) (v : Int)
+    (hd : dmax ≠ 0) (hr : (vsprintf_s fx slack dmax init fmt args).ret = some v) (hv : 0 ≤ v) : v < (dmax : Int) := by
+  unfold vsprintf_s at hr
+  generalize vsnprintf_s fx slack dmax init fmt args = R at hr
+  simp only at hr
+  split at hr
+  · rename_i w hw
+    by_cases hc : dmax ≠ 0 ∧ w ≥ (dmax : Int)
+    · rw [if_pos hc] at hr
+      simp only [Option.some.injEq] at hr
+      subst hr
+      simp [ESNOSPCi, SafeC.Gen.ESNOSPC] at hv
+    · rw [if_neg hc] at hr
+      rw [hw] at hr; cases hr
+      have : ¬ (v ≥ (dmax : Int)) := fun hge => hc ⟨hd, hge⟩
+      omega
+  · rename_i hn
+    rw [hn] at hr; cases hr
+
+/-! ## witnesses: where the full statement fails (each is replayed against glibc and the library by the check) -/
+
+def dest8 : List Char := List.replicate 8 'x'
+
+/-- `snprintf_s(d, 3, "abc")` (also sprintf_s, vsnprintf_s, code as found): returns 3 = dmax with only "ab" stored. -/
+theorem vsnprintf_s_exact_fit_witness :
+    (vsnprintf_s Fixes.none true 3 ['x', 'x', 'x'] ['a', 'b', 'c'] []).ret = some 3 ∧
+    (vsnprintf_s Fixes.none true 3 ['x', 'x', 'x'] ['a', 'b', 'c'] []).cells = ['a', 'b', '\x00'] := by decide
+
+/-- `sprintf_s(d, 8, "%-.5d", 42)` stores "42" (C: "00042"); the repaired code stores "00042". -/
+theorem ntoa_minus_precision_witness :
+    (sprintf_s Fixes.none true 8 dest8 ['%', '-', '.', '5', 'd'] [.int 42]).cells.take 3 = ['4', '2', '\x00'] ∧
+    (sprintf_s Fixes.all true 8 dest8 ['%', '-', '.', '5', 'd'] [.int 42]).cells.take 6 = ['0', '0', '0', '4', '2', '\x00'] := by decide
+
+/-- `sprintf_s(d, 8, "%#3x", 0x123)` stores "0x3" (C: "0x123"); repaired: "0x123". -/
+theorem ntoa_hash_takes_digits_witness :
+    (sprintf_s Fixes.none true 8 dest8 ['%', '#', '3', 'x'] [.int 291]).cells.take 4 = ['0', 'x', '3', '\x00'] ∧
+    (sprintf_s Fixes.all true 8 dest8 ['%', '#', '3', 'x'] [.int 291]).cells.take 6 = ['0', 'x', '1', '2', '3', '\x00'] := by decide
+
+/-- `sprintf_s(d, 8, "%#.5o", 0123)` stores "000123" (C: "00123"); repaired: "00123". -/
+theorem ntoa_hash_octal_precision_witness :
+    (sprintf_s Fixes.none true 8 dest8 ['%', '#', '.', '5', 'o'] [.int 83]).cells.take 7 = ['0', '0', '0', '1', '2', '3', '\x00'] ∧
+    (sprintf_s Fixes.all true 8 dest8 ['%', '#', '.', '5', 'o'] [.int 83]).cells.take 6 = ['0', '0', '1', '2', '3', '\x00'] := by decide
+
+/-- `sprintf_s(d, 40, "%+.32d", 1)` stores 32 digits and no `+` (C: `+` and 32 digits): the sign is dropped when the
+    32-byte buffer is full.  Not repaired (design limit). -/
+theorem ntoa_buffer_witness :
+    (sprintf_s Fixes.all true 40 (List.replicate 40 'x') ['%', '+', '.', '3', '2', 'd'] [.int 1]).ret = some 32 := by decide
+
+/-- `sprintf_s(d, 8, "%.*d", -1, 0)` stores "" (C: "0"); repaired: "0". -/
+theorem engine_negative_star_precision_witness :
+    (sprintf_s Fixes.none true 8 dest8 ['%', '.', '*', 'd'] [.int (-1), .int 0]).ret = some 0 ∧
+    (sprintf_s Fixes.all true 8 dest8 ['%', '.', '*', 'd'] [.int (-1), .int 0]).cells.take 2 = ['0', '\x00'] := by decide
+
+/-- `sprintf_s(d, 8, "%4294967297d", 5)` returns 1 (the numeral wraps to width 1 in `unsigned int`). -/
+theorem engine_width_wraps_witness :
+    (sprintf_s Fixes.all true 8 dest8 ['%', '4', '2', '9', '4', '9', '6', '7', '2', '9', '7', 'd'] [.int 5]).ret = some 1 := by decide
+
+/-- `sprintf_s(d, 8, "ab%lc", L'x')` leaves "x" (ret 3); with dmax 1 and "%lc" the copy leaves `dest`; repaired: "abx". -/
+theorem engine_lc_clobbers_witness :
+    (sprintf_s Fixes.none true 8 dest8 ['a', 'b', '%', 'l', 'c'] [.int 120]).cells.take 4 = ['x', '\x00', 'x', '\x00'] ∧
+    (sprintf_s Fixes.none true 1 ['x'] ['%', 'l', 'c'] [.int 120]).why = "fault" ∧
+    (sprintf_s Fixes.all true 8 dest8 ['a', 'b', '%', 'l', 'c'] [.int 120]).cells.take 4 = ['a', 'b', 'x', '\x00'] := by decide
+
+/-- `sprintf_s(d, 4, "%.0s", "hello")` fails with -ESNOSPC although nothing is written for the string; repaired: returns 0. -/
+theorem engine_s_precision0_witness :
+    (sprintf_s Fixes.none true 4 ['x', 'x', 'x', 'x'] ['%', '.', '0', 's'] [.str (some ['h', 'e', 'l', 'l', 'o'])]).ret = some (-406) ∧
+    (sprintf_s Fixes.all true 4 ['x', 'x', 'x', 'x'] ['%', '.', '0', 's'] [.str (some ['h', 'e', 'l', 'l', 'o'])]).ret = some 0 := by decide
+
+/-- `printf_s("a%cb", 0)` writes "ab" (C and fprintf_s: a, NUL, b) and still returns 3. -/
+theorem sinks_char_drops_nul_witness :
+    (streamPrintf Fixes.all .char ['a', '%', 'c', 'b'] [.int 0]).stream = ['a', 'b'] ∧
+    (streamPrintf Fixes.all .fchar ['a', '%', 'c', 'b'] [.int 0]).stream = ['a', '\x00', 'b'] ∧
+    (streamPrintf Fixes.all .char ['a', '%', 'c', 'b'] [.int 0]).ret = some 3 := by decide
+
 end SafeC.Props.C11
